@@ -4,6 +4,7 @@ import (
 	"context"
 	"encoding/json"
 	"fmt"
+	"math"
 	"strconv"
 	"strings"
 	"unicode/utf8"
@@ -37,8 +38,14 @@ func (self ValueString) Fields() (map[string]*Value, *Interrupt) {
 			return NewValueString(out), nil
 		}),
 		"repeat": NewValueBuiltinFunction(func(executor Executor, cancelCtx *context.Context, span errors.Span, args ...Value) (*Value, *Interrupt) {
-			count := int(args[0].(ValueInt).Inner)
-			return NewValueString(strings.Repeat(self.Inner, count)), nil
+			count := args[0].(ValueInt).Inner
+			if count < 0 {
+				return nil, NewThrowInterrupt(span, "negative repeat count")
+			}
+			if len(self.Inner) > 0 && count > math.MaxInt/int64(len(self.Inner)) {
+				return nil, NewThrowInterrupt(span, "repeat output length overflow")
+			}
+			return NewValueString(strings.Repeat(self.Inner, int(count))), nil
 		}),
 		"split": NewValueBuiltinFunction(func(executor Executor, cancelCtx *context.Context, span errors.Span, args ...Value) (*Value, *Interrupt) {
 			sep := args[0].(ValueString).Inner
